@@ -11,8 +11,8 @@ EXTENDS KadRouting, TLC, Json, IOUtils
 Rec == ndJsonDeserialize(IOEnv.TRACE)
 Mode == IOEnv.MODE
 
-VARIABLES l, bk, cfg
-tvars == <<l, bk, cfg>>
+VARIABLES l, bk, led, cfg
+tvars == <<l, bk, led, cfg>>
 
 ToE(a) == [id |-> a[1], conn |-> a[2], ha |-> a[3], xb |-> a[4], u |-> a[5]]
 ToB(b) == [j \in 1..Len(b) |-> ToE(b[j])]
@@ -27,23 +27,27 @@ ToOp(o) == IF o.op = "closest"
 
 TInit == /\ l = 1
          /\ bk = EmptyTable(1)
+         /\ led = {}
          /\ cfg = [K |-> 0, NB |-> 1]
 
 TReset == /\ Rec[l].e = "reset"
           /\ cfg' = [K |-> Rec[l].K, NB |-> Rec[l].NB]
           /\ bk' = Apply(EmptyTable(Rec[l].NB), Rec[l].init)
           /\ StateOK(Rec[l].K, bk')
+          \* the pre-filled peers were added as connected where the table says so
+          /\ led' = {e.id : e \in {x \in Stored(bk') : x.u = 1 /\ x.conn = "C"}}
 
 TOp == /\ Rec[l].e = "op"
        /\ cfg' = cfg
        /\ LET o == ToOp(Rec[l].o)
               T == Apply(bk, Rec[l].ch)
           IN /\ bk' = T
+             /\ led' = LedUpd(led, o, Rec[l].ret, T)
              /\ IF Mode = "impl"
                   THEN LET r == ImplStep(cfg.K, cfg.NB, FALSE, bk, o) IN
                          /\ Norm(r.bk) = Norm(T)
                          /\ RetObservable(o) => r.ret = Rec[l].ret
-                  ELSE PropStep(cfg.K, bk, o, Rec[l].ret, T)
+                  ELSE PropStep(cfg.K, bk, led, o, Rec[l].ret, T)
 
 TNext == /\ l <= Len(Rec)
          /\ l' = l + 1
